@@ -24,23 +24,15 @@ Definition x25519_accept (secret : list Z) : bool := negb (reject_x25519 secret)
 Definition dh_shared (v x p : Z) : Z := v ^ x mod p.
 
 (* ---- SEC1 point validation: the SPEC of what from_encoded_point must do ------------------ *)
-Fixpoint powmod_pos (b : Z) (e : positive) (m : Z) : Z :=
-  match e with
-  | xH => b mod m
-  | xO e' => let r := powmod_pos b e' m in (r * r) mod m
-  | xI e' => let r := powmod_pos b e' m in ((r * r) mod m * b) mod m
-  end.
-Definition powmod (b e m : Z) : Z :=
-  match e with Zpos q => powmod_pos b q m | _ => 1 mod m end.
-
 Definition curve_rhs (c : Z * Z * Z * Z) (x : Z) : Z :=
   let '(p, a, b, _) := c in (x * x * x + a * x + b) mod p.
 Definition on_curve (c : Z * Z * Z * Z) (x y : Z) : bool :=
   let '(p, _, _, _) := c in ((y * y) mod p =? curve_rhs c x).
-(* Euler's criterion (the curve primes are odd): a non-zero residue is a square iff a^((p-1)/2) = 1 *)
-Definition is_square (p a : Z) : bool := (a =? 0) || (powmod a ((p - 1) / 2) p =? 1).
 
-Definition ec_accept (c : Z * Z * Z * Z) (pt : list Z) : bool :=
+(* sq: for the compressed forms (02/03 || x), whether x^3 + a x + b is a square mod p, i.e. whether a
+   point with that abscissa exists - an oracle bit (a 521-bit modular exponentiation is too slow for
+   vm_compute); prefix, length and range of x are decided here *)
+Definition ec_accept (c : Z * Z * Z * Z) (sq : bool) (pt : list Z) : bool :=
   let '(p, _, _, flen) := c in
   let n := Z.to_nat (Z.min flen 128) in
   match pt with
@@ -50,8 +42,7 @@ Definition ec_accept (c : Z * Z * Z * Z) (pt : list Z) : bool :=
        let y := be_decode (skipn n r) in
        (x <? p) && (y <? p) && on_curve c x y)
   | t :: r =>
-      ((t =? 2) || (t =? 3)) && Nat.eqb (length r) n && bytes_ok r &&
-      (let x := be_decode r in (x <? p) && is_square p (curve_rhs c x))
+      ((t =? 2) || (t =? 3)) && Nat.eqb (length r) n && bytes_ok r && (be_decode r <? p) && sq
   | [] => false
   end.
 
@@ -139,12 +130,13 @@ Definition run_x25519 (c : Z * Z * bool * list Z) : list Z :=
   canon (run_steps (if role =? 0 then steps_x25519_reply else steps_x25519_init)
                    (mkenv 0 0 secret (pklen =? 32) exch)).
 
-(* NIST ECDH: (index into curves, role, encoded point); the point validation is ec_accept *)
-Definition run_ec (c : Z * Z * list Z) : list Z :=
-  let '(ci, role, pt) := c in
+(* NIST ECDH: (index into curves, role, residuosity oracle for compressed forms, encoded point);
+   the point validation is ec_accept *)
+Definition run_ec (c : Z * Z * bool * list Z) : list Z :=
+  let '(ci, role, sq, pt) := c in
   match nth_error curves (Z.to_nat (Z.min ci 64)) with
   | None => [-1]
   | Some cv =>
       canon (run_steps (if role =? 0 then steps_ecdh_reply else steps_ecdh_init)
-                       (mkenv 0 0 [] (ec_accept cv pt) true))
+                       (mkenv 0 0 [] (ec_accept cv sq pt) true))
   end.
